@@ -55,6 +55,11 @@ func (c *Config) ParseArgs() error {
 
 	flag.Usage = Usage
 	flag.Parse()
+	if 1 < flag.NArg() {
+		// The flag package stops at the first argument that is not a flag: an option written after
+		// the input file (`convergen setup.go -dry`) would be ignored without a word.
+		return fmt.Errorf("unexpected argument %q after the input file: options go before it", flag.Arg(1))
+	}
 
 	inputPath := flag.Arg(0)
 	if inputPath == "" {
